@@ -3,8 +3,7 @@
 From C15 Require Import Model Spec TableCheck WordProofs.
 From GenC15 Require Import Tables.
 
-(* every Roman, cardinal, teen, ten and ordinal word of the source is the expected one (the scale word of
-   10^18 excepted, see TableCheck.tables_agree) *)
+(* every Roman, cardinal, scale, teen, ten and ordinal word of the source is the expected one *)
 Theorem tables_agree_now : tables_agree gen_tables = true.
 Proof. vm_compute. reflexivity. Qed.
 Print Assumptions tables_agree_now.
@@ -34,13 +33,12 @@ Proof.
 Qed.
 Print Assumptions roman_now.
 
-(* with the current tables the English loop of dirR writes the defined text for EVERY integer inside english_ok
+(* with the current tables the English branch of dirR writes the defined text for EVERY integer, cardinal and ordinal
    (EnglishProofs.english_loop_T: induction over the groups of three digits; the 22 x 1000 rounds of the loop over the
    regenerated tables are compared with the definition by the kernel, here, on every run) *)
 From C15 Require Import EnglishProofs.
-Lemma english_checks_now : List.length (t_triples gen_tables) = 22 /\ chkA gen_tables = true /\ chkC gen_tables = true.
-Proof. split; [vm_compute; reflexivity|]. split; vm_compute; reflexivity. Qed.
-Theorem english_now : forall ordinal z, english_ok ordinal (Z.abs_N z) = true ->
-  go_english gen_tables ordinal (dec_text z) = std_english ordinal z.
-Proof. destruct english_checks_now as [H1 [H2 H3]]. exact (english_loop_T gen_tables H1 H2 H3). Qed.
+Lemma english_checks_now : List.length (t_triples gen_tables) = 22 /\ chkA gen_tables = true /\ chkC gen_tables = true /\ chkD gen_tables = true.
+Proof. split; [vm_compute; reflexivity|]. split; [|split]; vm_compute; reflexivity. Qed.
+Theorem english_now : forall ordinal z, go_english gen_tables ordinal (dec_text z) = std_english ordinal z.
+Proof. destruct english_checks_now as [H1 [H2 [H3 H4]]]. exact (english_loop_T gen_tables H1 H2 H3 H4). Qed.
 Print Assumptions english_now.
